@@ -20,6 +20,8 @@ LEVEL_TEXT = ('Decides from the source: the seed loop of recursive_call has a st
               'analysis finds the left calls of every expression shape of the documented table (so a left-recursive rule is '
               'marked); is_lrec/is_memo travel from the analysis into RuleInfo and into @tatsu.leftrec/@tatsu.nomemo of '
               'generated parsers. Associativity of results and leader selection are not decided.')
+TECHNIQUE += '; replay contracts of rule_call and recursive_call interpreted with memo / _results hits'
+LEVEL_TEXT += ' Added clause: the recursive invocation inside the seed loop ends at the _results lookup (hit returned, exception raised) before anything is evaluated; the seed is stored before the first evaluation.'
 LEVEL_NOTE = 'Positions are bounded by the text length, so a strictly increasing lastpos bounds the number of iterations.'
 EXPLANATION = ('Static analysis of /repo sources, TatSu not imported. recursive_call is executed abstractly with flags and test '
                'hooks; pegen._callable_rule_ids/_is_nullable_safe and the is_nullable methods are interpreted on stand-in trees.')
